@@ -88,6 +88,7 @@ class FFDirector(SectionLineParser):
         self.current_block = None
         self.current_link = None
         self.current_modification = None
+        self._context_started = False
         self.blocks = collections.OrderedDict()
         self.links = []
         self.modifications = []
@@ -181,6 +182,12 @@ class FFDirector(SectionLineParser):
             self.current_modification.citations.update(self.citations)
             self.force_field.modifications[self.current_modification.name] = self.current_modification
 
+        # The contexts are stored; they must not be stored again when the next
+        # top-level section ends.
+        self.current_block = None
+        self.current_link = None
+        self.current_modification = None
+
     def get_context(self, context_type=''):
         possible_contexts = {
             'block': self.current_block,
@@ -191,18 +198,21 @@ class FFDirector(SectionLineParser):
         return possible_contexts[context_type]
 
     def has_context(self):
-        open_contexts = [
-            self.current_block, self.current_link, self.current_modification]
-        return open_contexts != ([None] * len(open_contexts))
+        # True once a block, a link or a modification has been started, also
+        # after it has been stored and closed.
+        return self._context_started
 
     def _new_block(self):
         self.current_block = Block(force_field=self.force_field)
+        self._context_started = True
 
     def _new_link(self):
         self.current_link = Link(force_field=self.force_field)
+        self._context_started = True
 
     def _new_modification(self):
         self.current_modification = Modification(force_field=self.force_field)
+        self._context_started = True
 
     @SectionLineParser.section_parser('variables')
     def _variables(self, line, lineno=0):
